@@ -328,6 +328,48 @@ impl Monitor for C16 {
                 }
             }
         }
+        // phase E: short sequences in fresh processes - whatever the first calls of a process (or its
+        // first use of an evaluator) fix for the rest of its life shows in the calls that follow
+        let seqs = ctx.tier.pick(12usize, 120);
+        if let Some(exe) = &exe {
+            let dir = format!("{}/.build/tmp", crate::driver::root());
+            let _ = std::fs::create_dir_all(&dir);
+            for s in 0..seqs {
+                let len = 3 + rng.below(6);
+                let idx: Vec<usize> = (0..len).map(|_| rng.below(hist.len())).collect();
+                let path = format!("{}/c16-seq-{}-{}-{}.jsonl", dir, std::process::id(), ctx.shard, s);
+                let text: String = idx.iter().map(|i| Case::new(hist[*i].ev, "history", &hist[*i].expr, hist[*i].ph).to_json().to_string() + "\n").collect();
+                if std::fs::write(&path, text).is_err() {
+                    ctx.stats.inc("fresh_process_spawn_failed");
+                    continue;
+                }
+                let out = std::process::Command::new(exe).arg("fresh-seq").arg(&path).output();
+                let _ = std::fs::remove_file(&path);
+                let outs: Vec<String> = match out {
+                    Ok(o) if o.status.success() => match crate::json::J::parse(String::from_utf8_lossy(&o.stdout).trim()) {
+                        Ok(crate::json::J::Arr(a)) => a.iter().filter_map(|x| x.as_str().map(|t| t.to_string())).collect(),
+                        _ => vec![],
+                    },
+                    _ => vec![],
+                };
+                if outs.len() != idx.len() {
+                    ctx.stats.inc("fresh_process_spawn_failed");
+                    continue;
+                }
+                ctx.stats.inc("fresh_process_sequences");
+                for (k, i) in idx.iter().enumerate() {
+                    let c = &hist[*i];
+                    let b = &base[&c.key()];
+                    if outs[k] != b.enc() {
+                        let fake = Outcome::Err(format!("(call {} of a fresh process printed) {}", k + 1, outs[k]));
+                        let first = &hist[idx[0]];
+                        self.report(ctx, c, b, &fake, &format!("fresh process whose first call was {}:{}", first.ev.name(), first.expr));
+                    } else {
+                        self.ok(ctx, c, "fresh-process-sequence");
+                    }
+                }
+            }
+        }
     }
     fn judge(&self, case: &Case, _st: &mut Stats) -> Verdict {
         // replay: the recorded outcome must be what a plain call returns, every time
@@ -344,7 +386,7 @@ impl Monitor for C16 {
         pass(true)
     }
     fn rule(&self) -> &'static str {
-        "each of the 16 workers builds its own random history (12 to 300 distinct expressions per evaluator in the quick tier, 40 to 3000 in the thorough tier, depending on the worker - few, so that each is repeated often, or more than a capacity-bounded table would hold; incl. malformed ones, the same expression with changing placeholders back to back, failing calls between good ones, evaluations that fail part-way through (in a later argument, a right operand, an inner call) followed by successful ones of the same and of unrelated expressions, the same text sent to every evaluator) and runs it (A) sequentially, recording the outcome of every distinct (evaluator, expression, placeholder) and comparing repeats, (B) in a shuffled order, (C) on 16 threads concurrently, each thread replaying the history from a different rotation with thread::yield_now() injected at every k-th counted step, (D) as the first call of a fresh process for a sample; any call observed with two different outcomes (full comparison including error messages) is a violation; begin/end tickets from one atomic counter show which calls overlapped in time; plus Miri (many seeds) and, in the thorough tier, ThreadSanitizer over a multi-threaded replay; non-trivial = every compared observation; distinct = distinct (evaluator, expression, placeholder, phase)"
+        "each of the 16 workers builds its own random history (12 to 300 distinct expressions per evaluator in the quick tier, 40 to 3000 in the thorough tier, depending on the worker - few, so that each is repeated often, or more than a capacity-bounded table would hold; incl. malformed ones, the same expression with changing placeholders back to back, failing calls between good ones, evaluations that fail part-way through (in a later argument, a right operand, an inner call) followed by successful ones of the same and of unrelated expressions, the same text sent to every evaluator) and runs it (A) sequentially, recording the outcome of every distinct (evaluator, expression, placeholder) and comparing repeats, (B) in a shuffled order, (C) on 16 threads concurrently, each thread replaying the history from a different rotation with thread::yield_now() injected at every k-th counted step, (D) as the first call of a fresh process for a sample, (E) as short random sequences (3-8 calls) each in a fresh process of its own; any call observed with two different outcomes (full comparison including error messages) is a violation; begin/end tickets from one atomic counter show which calls overlapped in time; plus Miri (many seeds) and, in the thorough tier, ThreadSanitizer over a multi-threaded replay; non-trivial = every compared observation; distinct = distinct (evaluator, expression, placeholder, phase)"
     }
     fn assumptions(&self) -> Vec<&'static str> {
         vec![
@@ -353,7 +395,7 @@ impl Monitor for C16 {
         ]
     }
     fn floors(&self, t: Tier) -> Vec<(String, u64)> {
-        vec![("overlapping_call_pairs".into(), 10_000), ("concurrent_calls".into(), t.pick(100_000, 1_000_000)), ("fresh_process_baselines_agreeing".into(), t.pick(100, 1000)), ("distinct_calls".into(), 5_000), ("expressions_both_succeeding_and_failing".into(), 200)]
+        vec![("overlapping_call_pairs".into(), 10_000), ("concurrent_calls".into(), t.pick(100_000, 1_000_000)), ("fresh_process_baselines_agreeing".into(), t.pick(100, 1000)), ("distinct_calls".into(), 5_000), ("fresh_process_sequences".into(), t.pick(100, 1000)), ("expressions_both_succeeding_and_failing".into(), 200)]
     }
 }
 
